@@ -124,8 +124,15 @@ def recursion_typestate(C, R, er):
     cfg = {}
 
     def expansion(ip, n, a):
-        it = it_of(a[-1], "perform_one_recursive_edge_expansion")
-        log.append(("neighbors", d(a[3]), it.vtype))
+        # arguments by type, not by position (the helper's parameter list may be reordered / trimmed): the context iterator is the
+        # IterState value, the type name is the first `&Arc<str>` argument (the edge name follows it)
+        its = [x for x in a if isinstance(d(x), IterState)]
+        tys = [(C.S(strip(x).get("ty")) or "") for x in n["args"]]
+        names = [a[i] for i, t in enumerate(tys) if "Arc<str>" in t and i < len(a)]
+        if len(its) != 1 or not names:
+            raise A.Unsupported("perform_one_recursive_edge_expansion is called with an unexpected argument list")
+        it = it_of(its[0], "perform_one_recursive_edge_expansion")
+        log.append(("neighbors", d(names[0]), it.vtype))
         return IterState("ctx", cfg["endpoint"])
     I[EXE + "perform_one_recursive_edge_expansion"] = expansion
     I[EXE + "post_process_recursive_expansion"] = lambda ip, n, a: a[0]
@@ -152,10 +159,10 @@ def recursion_typestate(C, R, er):
             # arguments are matched to parameters by type (the two IRVertex parameters by the from / to in their names), so a
             # reordering or renaming of this private function's parameters is not an alarm
             A.Interp(C, I, max_steps=200000).call_by_type(er, [
-                ("QueryCarrier", vals["carrier"]), ("IRQueryComponent", vals["component"]), ("name:_from", vals["expanding_from"]),
-                ("name:_to", vals["expanding_to"]), ("Eid", vals["edge_id"]), ("Arc<str>", vals["edge_name"]),
-                ("EdgeParameters", vals["edge_parameters"]), ("Recursive", vals["recursive"]), ("Iterator", vals["iterator"]),
-                ("&", vals["adapter"])])
+                ("QueryCarrier", vals["carrier"], "optional"), ("IRQueryComponent", vals["component"], "optional"),
+                ("name:_from", vals["expanding_from"]), ("name:_to", vals["expanding_to"]), ("Eid", vals["edge_id"], "optional"),
+                ("Arc<str>", vals["edge_name"], "optional"), ("EdgeParameters", vals["edge_parameters"], "optional"),
+                ("Recursive", vals["recursive"]), ("Iterator", vals["iterator"]), ("&", vals["adapter"], "optional")])
             cases += 1
             nb = [x for x in log if x[0] == "neighbors"]
             if not nb and bad is None:
